@@ -136,6 +136,9 @@ func (e *env) lookupObj(name string) types.Object {
 }
 
 func (e *env) constVal(c *types.Const) Val {
+	if c.Val().Kind() == constant.Bool {
+		return boolVal(fmt.Sprint(constant.BoolVal(c.Val())))
+	}
 	v := constant.ToInt(c.Val())
 	switch v.Kind() {
 	case constant.Int:
